@@ -1101,4 +1101,388 @@ theorem heldTrace_ok (c : Cfg) : ∀ (ops : List Op) (s : St), heldTrace (traceO
     simp only [traceOf, heldTrace, held_op]
     exact ih _
 
+/-! ## The checkable's side: force_next_notification, notification objects that appear later -/
+
+/-- The per-object operations a checkable-level sequence amounts to: requests carry the checkable's flag, requests and
+    timer runs while the object is not registered do not reach it. -/
+def lower : CkSt → List COp → List Op
+  | _, [] => []
+  | k, .setForce :: rest => lower (ckSetForce k) rest
+  | k, .attach b :: rest => lower { k with attached := b } rest
+  | k, .send ty e :: rest =>
+    if k.attached then .send ty { e with force := k.force } :: lower (ckRequest k).1 rest else lower (ckRequest k).1 rest
+  | k, .tick e :: rest => if k.attached then .tick e :: lower k rest else lower k rest
+
+theorem reqForced_ctraceOf (c : Cfg) (cops : List COp) : ∀ (k : CkSt) (s : St),
+    reqForced k.force (ctraceOf c k s cops) = traceOf c s (lower k cops) := by
+  induction cops with
+  | nil => intro k s; rfl
+  | cons op rest ih =>
+    intro k s
+    cases op with
+    | setForce =>
+      simp only [ctraceOf, cApply, lower, reqForced]
+      exact ih (ckSetForce k) s
+    | attach b =>
+      simp only [ctraceOf, cApply, lower]
+      exact ih { k with attached := b } s
+    | send ty e =>
+      cases ha : k.attached
+      · simp only [ctraceOf, cApply, lower, ha, reqForced, Bool.false_eq_true, if_false]
+        exact ih (ckRequest k).1 s
+      · simp only [ctraceOf, cApply, lower, ha, if_true, reqForced, applyOp, traceOf, ckRequest]
+        congr 1
+        exact ih ⟨false, true⟩ _
+    | tick e =>
+      cases ha : k.attached
+      · simp only [ctraceOf, cApply, lower, ha, Bool.false_eq_true, if_false]
+        exact ih k s
+      · simp only [ctraceOf, cApply, lower, ha, if_true, reqForced, applyOp, traceOf]
+        congr 1
+        exact ih k _
+
+theorem crun_force_false (c : Cfg) (mid : List COp) : ∀ (k : CkSt) (s : St), k.force = false →
+    (∀ op ∈ mid, op ≠ COp.setForce) → (crun c k s mid).1.force = false := by
+  induction mid with
+  | nil => intro k s h _; exact h
+  | cons op rest ih =>
+    intro k s h hm
+    have hrest : ∀ op ∈ rest, op ≠ COp.setForce := fun o ho => hm o (List.mem_cons_of_mem _ ho)
+    cases op with
+    | setForce => exact absurd rfl (hm _ (List.mem_cons_self ..))
+    | attach b => simp only [crun, cApply]; exact ih _ _ h hrest
+    | send ty e =>
+      simp only [crun, cApply]
+      cases ha : k.attached
+      · simp only [Bool.false_eq_true, if_false]; exact ih _ _ rfl hrest
+      · simp only [if_true]; exact ih _ _ rfl hrest
+    | tick e =>
+      simp only [crun, cApply]
+      cases ha : k.attached
+      · simp only [Bool.false_eq_true, if_false]; exact ih _ _ h hrest
+      · simp only [if_true]; exact ih _ _ h hrest
+
+/-! ## Forced notifications out of the timer stem from stashed forced requests -/
+
+/-- `step` keeps the stash and every forced event it shows stems from an entry `(type, true)` of `L`. -/
+def FQ (L : List (NType × Bool)) (step : St → St × List Event) : Prop :=
+  ∀ s, (step s).1.stash = s.stash ∧ ∀ ev ∈ (step s).2, ev.force = true → (ev.ty, true) ∈ L
+
+theorem FQ_seq {L : List (NType × Bool)} {a b : St → St × List Event} (ha : FQ L a) (hb : FQ L b) : FQ L (seq a b) := by
+  intro s
+  simp only [seq]
+  refine ⟨by rw [(hb _).1, (ha s).1], ?_⟩
+  intro ev hm hf
+  rcases List.mem_append.mp hm with h | h
+  · exact (ha s).2 ev h hf
+  · exact (hb _).2 ev h hf
+
+theorem pre_stash (s : St) (ty : NType) : (pre s ty).stash = s.stash := by
+  unfold pre; cases (ty == NType.recovery) <;> simp
+
+theorem filteredEv_force (ty : NType) (rem force : Bool) (ev : Event) (h : filteredEv ty rem force = some ev) :
+    ev.force = force ∧ ev.ty = ty := by
+  rcases filteredEv_cases ty rem force with ⟨_, h2⟩ | ⟨h1, h2⟩
+  · rw [h2] at h; cases h
+  · rw [h2] at h; cases h; exact ⟨rfl, h1.symm⟩
+
+theorem beginExec_stash_force (c : Cfg) (s : St) (ty : NType) (force rem : Bool) (e : Env) :
+    (beginExec c s ty force rem e).1.stash = s.stash ∧
+    ∀ ev, (beginExec c s ty force rem e).2 = some ev → ev.force = force ∧ ev.ty = ty := by
+  have hp := pre_stash s ty
+  rcases beginExec_cases c s ty force rem e with h | h | h | h | h | h
+  · rw [h.2]; exact ⟨hp, fun ev hev => filteredEv_force ty rem force ev hev⟩
+  · rw [h.2.2]; exact ⟨hp, fun ev hev => filteredEv_force ty rem force ev hev⟩
+  · rw [h.2.2.2]; exact ⟨hp, fun ev hev => filteredEv_force ty rem force ev hev⟩
+  · rw [h.2.2.2.2]; exact ⟨hp, fun ev hev => filteredEv_force ty rem force ev hev⟩
+  · rw [h.2.2.2.2.2]; exact ⟨hp, fun ev hev => filteredEv_force ty rem force ev hev⟩
+  · rw [h.2.2.2.2.2]
+    refine ⟨by simp [passedResult, book, hp], ?_⟩
+    intro ev hev
+    simp only [passedResult, Option.some.injEq] at hev
+    subst hev; exact ⟨rfl, rfl⟩
+
+theorem FQ_begin (L : List (NType × Bool)) (c : Cfg) (ty : NType) (force rem : Bool) (e : Env)
+    (h : force = true → (ty, true) ∈ L) : FQ L (beginStep c ty force rem e) := by
+  intro s
+  obtain ⟨h1, h2⟩ := beginExec_stash_force c s ty force rem e
+  refine ⟨h1, ?_⟩
+  intro ev hm hf
+  simp only [beginStep, Option.mem_toList] at hm
+  obtain ⟨a, b⟩ := h2 ev hm
+  rw [b]; exact h (by rw [← a]; exact hf)
+
+theorem FQ_fireOne (L : List (NType × Bool)) (c : Cfg) (fire : Bool) (ty : NType) (e : Env) : FQ L (fireOne c fire ty e) := by
+  rw [fireOne_eq]
+  intro s
+  cases fire
+  · exact ⟨rfl, fun ev hm => by simp at hm⟩
+  · simp only [if_true]
+    have := FQ_begin L c ty false false e (fun h => by cases h) { s with sup := s.sup.clear ty }
+    exact this
+
+theorem FQ_fireSup (L : List (NType × Bool)) (c : Cfg) (e : Env) : FQ L (fireSup c e) := by
+  intro s
+  simp only [fireSup]
+  exact FQ_seq (FQ_fireOne L c _ .problem e) (FQ_seq (FQ_fireOne L c _ .recovery e)
+    (FQ_seq (FQ_fireOne L c _ .flapStart e) (FQ_fireOne L c _ .flapEnd e))) _
+
+theorem FQ_unstashList (L : List (NType × Bool)) (c : Cfg) (e : Env) :
+    ∀ l : List (NType × Bool), (∀ p ∈ l, p ∈ L) → FQ L (unstashList c e l) := by
+  intro l
+  induction l with
+  | nil => intro _ s; exact ⟨rfl, fun ev hm => by simp [unstashList] at hm⟩
+  | cons a rest ih =>
+    obtain ⟨ty, force⟩ := a
+    intro hl
+    have h1 : FQ L (beginStep c ty force false e) :=
+      FQ_begin L c ty force false e (fun hf => by subst hf; exact hl _ (List.mem_cons_self ..))
+    have h2 := ih (fun p hp => hl p (List.mem_cons_of_mem _ hp))
+    intro s
+    simp only [unstashList]
+    exact FQ_seq h1 h2 s
+
+theorem FQ_reminderStep (L : List (NType × Bool)) (c : Cfg) (e : Env) : FQ L (reminderStep c e) := by
+  intro s
+  simp only [reminderStep]
+  cases hd : reminderDue c s e
+  · simp
+  · simp only [if_true]
+    cases ha : reminderAllowed { s with next := e.now + c.interval } e
+    · simp
+    · simp only [if_true]
+      exact FQ_begin L c .problem false true e (fun h => by cases h) { s with next := e.now + c.interval }
+
+/-- A timer run: every forced event stems from a forced request in the stash, and what remains stashed was stashed before. -/
+theorem tick_forced_from_stash (c : Cfg) (s : St) (e : Env) :
+    (∀ p ∈ (tickStep c s e).1.stash, p ∈ s.stash) ∧
+    ∀ ev ∈ (tickStep c s e).2, ev.force = true → (ev.ty, true) ∈ s.stash := by
+  have hdrop : ∀ p ∈ (dropStash s e).stash, p ∈ s.stash := by
+    unfold dropStash; cases (e.paused && e.authUpdated) <;> simp
+  simp only [tickStep]
+  cases hs : tickSkipped e
+  · simp only [Bool.false_eq_true, if_false]
+    have hsup : (∀ p ∈ (supStep c e (dropStash s e)).1.stash, p ∈ s.stash) ∧
+        ∀ ev ∈ (supStep c e (dropStash s e)).2, ev.force = true → (ev.ty, true) ∈ s.stash := by
+      simp only [supStep]
+      cases hr : e.reachable
+      · simp only [Bool.false_eq_true, if_false]; exact ⟨hdrop, fun ev hm => by simp at hm⟩
+      · simp only [if_true]
+        have hq : FQ s.stash (seq (unstashList c e (dropStash s e).stash) (fireSup c e)) :=
+          FQ_seq (FQ_unstashList _ c e _ hdrop) (FQ_fireSup _ c e)
+        have := hq { dropStash s e with stash := [] }
+        simp only [seq, unstash] at this ⊢
+        refine ⟨?_, this.2⟩
+        rw [this.1]; intro p hp; simp at hp
+    have hrem := FQ_reminderStep s.stash c e (supStep c e (dropStash s e)).1
+    simp only [seq]
+    refine ⟨by rw [hrem.1]; exact hsup.1, ?_⟩
+    intro ev hm hf
+    rcases List.mem_append.mp hm with h | h
+    · exact hsup.2 ev h hf
+    · exact hrem.2 ev h hf
+  · simp only [if_true]; exact ⟨hdrop, fun ev hm => by simp at hm⟩
+
+def OwedInv (owed : List NType) (s : St) : Prop := ∀ p ∈ s.stash, p.2 = true → p.1 ∈ owed
+
+theorem sendStep_shapes (c : Cfg) (s : St) (ty : NType) (e : Env) :
+    sendStep c s ty e = (s, []) ∨ sendStep c s ty e = ({ s with stash := s.stash ++ [(ty, e.force)] }, []) ∨
+    sendStep c s ty e = beginStep c ty e.force false e s := by
+  unfold sendStep
+  cases sendBlocked e <;> cases e.authUpdated <;> cases e.paused <;> cases s.stash.isEmpty <;> simp
+
+theorem owed_op (c : Cfg) (owed : List NType) (s : St) (op : Op) (hi : OwedInv owed s) :
+    (owedObs owed (applyOp c s op).2).1 = none ∧ OwedInv (owedObs owed (applyOp c s op).2).2 (applyOp c s op).1 := by
+  cases op with
+  | send ty e =>
+    have hmono : ∀ (b : Bool) p, p ∈ owed → p ∈ (if b then (some ty).toList ++ owed else owed) := by
+      intro b p hp; cases b <;> simp [hp]
+    have key : ∀ r : St × List Event,
+        (r = (s, []) ∨ r = ({ s with stash := s.stash ++ [(ty, e.force)] }, []) ∨ r = beginStep c ty e.force false e s) →
+        (owedObs owed ⟨.send, e, r.2, r.1.sup.problem, some ty⟩).1 = none ∧
+        OwedInv (owedObs owed ⟨.send, e, r.2, r.1.sup.problem, some ty⟩).2 r.1 := by
+      intro r hr
+      simp only [owedObs]
+      refine ⟨by trivial, ?_⟩
+      rcases hr with h | h | h
+      · subst h; exact fun p hp h2 => hmono _ _ (hi p hp h2)
+      · subst h
+        intro p hp h2
+        simp only [List.mem_append, List.mem_singleton] at hp
+        rcases hp with hp | hp
+        · exact hmono _ _ (hi p hp h2)
+        · subst hp
+          simp only at h2
+          simp [h2]
+      · subst h
+        intro p hp h2
+        simp only [beginStep] at hp
+        rw [(beginExec_stash_force c s ty e.force false e).1] at hp
+        exact hmono _ _ (hi p hp h2)
+    exact key (sendStep c s ty e) (sendStep_shapes c s ty e)
+  | tick e =>
+    have key : ∀ r : St × List Event, (∀ p ∈ r.1.stash, p ∈ s.stash) →
+        (∀ ev ∈ r.2, ev.force = true → (ev.ty, true) ∈ s.stash) →
+        (owedObs owed ⟨.tick, e, r.2, r.1.sup.problem, none⟩).1 = none ∧
+        OwedInv (owedObs owed ⟨.tick, e, r.2, r.1.sup.problem, none⟩).2 r.1 := by
+      intro r h1 h2
+      simp only [owedObs]
+      constructor
+      · have : r.2.all (fun ev => !ev.force || owed.contains ev.ty) = true := by
+          rw [List.all_eq_true]
+          intro ev hm
+          cases hf : ev.force
+          · simp
+          · simp only [Bool.not_true, Bool.false_or, List.contains_eq_mem, decide_eq_true_eq]
+            exact hi _ (h2 ev hm hf) rfl
+        rw [if_pos this]
+      · intro p hp hf; exact hi p (h1 p hp) hf
+    exact key (tickStep c s e) (tick_forced_from_stash c s e).1 (tick_forced_from_stash c s e).2
+
+/-! ## Forced notifications reach every enabled user -/
+
+theorem userLoop_forced_all (c : Cfg) (ty : NType) (rem : Bool) (e : Env) (hp : plainType ty = true) :
+    ∀ (us : List UEnv) (npu : List Nat) (lns : Nat → Option Nat) (u : UEnv), u ∈ us → u.enabled = true →
+      u.id ∈ (userLoop c ty true rem e npu lns us).2.2 := by
+  have hty : (ty == NType.problem) = false ∧ (ty == NType.recovery) = false ∧ (ty == NType.ack) = false := by
+    cases ty <;> simp [plainType] at hp ⊢
+  intro us
+  induction us with
+  | nil => intro npu lns u hm; simp at hm
+  | cons v rest ih =>
+    intro npu lns u hm hen
+    simp only [userLoop]
+    rcases List.mem_cons.mp hm with h | h
+    · subst h
+      have : (userStep c ty true rem e npu lns u).2.2 = true := by
+        rw [userStep_flag]
+        simp [userOk, wasNotified, isDup, hen, hty.1, hty.2.1, hty.2.2]
+      simp [this]
+    · have := ih (userStep c ty true rem e npu lns v).1 (userStep c ty true rem e npu lns v).2.1 u h hen
+      cases (userStep c ty true rem e npu lns v).2.2 <;> simp [this]
+
+theorem beginExec_bypass (c : Cfg) (s : St) (ty : NType) (force rem : Bool) (e : Env) (ev : Event)
+    (h : (beginExec c s ty force rem e).2 = some ev) : bypassEv e ev = true := by
+  rcases beginExec_split c s ty force rem e with ⟨h1, _, _⟩ | ⟨_, _, _, _, _, h1⟩
+  · rw [h1] at h
+    rcases filteredEv_cases ty rem force with ⟨_, h'⟩ | ⟨_, h'⟩
+    · rw [h'] at h; cases h
+    · rw [h'] at h; cases h; simp [bypassEv]
+  · rw [h1] at h
+    simp only [passedResult, Option.some.injEq] at h
+    subst h
+    cases force
+    · simp [bypassEv]
+    · cases hp : plainType ty
+      · simp [bypassEv, hp]
+      · simp only [bypassEv, hp, Bool.and_self, Bool.not_true, Bool.false_or, List.all_eq_true, Bool.or_eq_true,
+          Bool.not_eq_true', List.contains_eq_mem, decide_eq_true_eq]
+        intro u hu
+        cases hen : u.enabled
+        · left; rfl
+        · right; exact userLoop_forced_all c ty rem e hp _ _ _ u hu hen
+
+/-- every event a step shows satisfies `Q` -/
+def AllQ (Q : Event → Prop) (step : St → St × List Event) : Prop := ∀ s, ∀ ev ∈ (step s).2, Q ev
+
+theorem AllQ_seq {Q : Event → Prop} {a b : St → St × List Event} (ha : AllQ Q a) (hb : AllQ Q b) : AllQ Q (seq a b) := by
+  intro s ev hm
+  simp only [seq, List.mem_append] at hm
+  rcases hm with hm | hm
+  · exact ha s ev hm
+  · exact hb _ ev hm
+
+theorem AllQ_begin (c : Cfg) (ty : NType) (force rem : Bool) (e : Env) :
+    AllQ (fun ev => bypassEv e ev = true) (beginStep c ty force rem e) := by
+  intro s ev hm
+  simp only [beginStep, Option.mem_toList] at hm
+  exact beginExec_bypass c s ty force rem e ev hm
+
+theorem AllQ_fireOne (c : Cfg) (fire : Bool) (ty : NType) (e : Env) :
+    AllQ (fun ev => bypassEv e ev = true) (fireOne c fire ty e) := by
+  rw [fireOne_eq]
+  intro s ev hm
+  cases fire
+  · simp at hm
+  · simp only [if_true] at hm; exact AllQ_begin c ty false false e _ ev hm
+
+theorem AllQ_unstashList (c : Cfg) (e : Env) :
+    ∀ l : List (NType × Bool), AllQ (fun ev => bypassEv e ev = true) (unstashList c e l) := by
+  intro l
+  induction l with
+  | nil => intro s ev hm; simp [unstashList] at hm
+  | cons a rest ih =>
+    obtain ⟨ty, force⟩ := a
+    intro s ev hm
+    simp only [unstashList] at hm
+    exact AllQ_seq (AllQ_begin c ty force false e) ih s ev hm
+
+theorem AllQ_supStep (c : Cfg) (e : Env) : AllQ (fun ev => bypassEv e ev = true) (supStep c e) := by
+  intro s ev hm
+  simp only [supStep] at hm
+  cases hr : e.reachable
+  · simp [hr] at hm
+  · simp only [hr, if_true] at hm
+    refine AllQ_seq (Q := fun ev => bypassEv e ev = true) (a := unstash c e) (b := fireSup c e) ?_ ?_ s ev hm
+    · intro s ev hm; simp only [unstash] at hm; exact AllQ_unstashList c e _ _ ev hm
+    · intro s ev hm
+      simp only [fireSup] at hm
+      exact AllQ_seq (AllQ_fireOne c _ .problem e) (AllQ_seq (AllQ_fireOne c _ .recovery e)
+        (AllQ_seq (AllQ_fireOne c _ .flapStart e) (AllQ_fireOne c _ .flapEnd e))) _ ev hm
+
+theorem AllQ_reminderStep (c : Cfg) (e : Env) : AllQ (fun ev => bypassEv e ev = true) (reminderStep c e) := by
+  intro s ev hm
+  simp only [reminderStep] at hm
+  cases hd : reminderDue c s e
+  · simp [hd] at hm
+  · simp only [hd, if_true] at hm
+    cases ha : reminderAllowed { s with next := e.now + c.interval } e
+    · simp [ha] at hm
+    · simp only [ha, if_true] at hm
+      exact AllQ_begin c .problem false true e _ ev hm
+
+theorem bypass_op (c : Cfg) (s : St) (op : Op) : bypassObs (applyOp c s op).2 = true := by
+  cases op with
+  | send ty e =>
+    simp only [applyOp, bypassObs, List.all_eq_true]
+    intro ev hm
+    rcases sendStep_shapes c s ty e with h | h | h
+    · rw [h] at hm; simp at hm
+    · rw [h] at hm; simp at hm
+    · rw [h] at hm; exact AllQ_begin c ty e.force false e s ev hm
+  | tick e =>
+    simp only [applyOp, bypassObs, List.all_eq_true]
+    intro ev hm
+    simp only [tickStep] at hm
+    cases hs : tickSkipped e
+    · simp only [hs, Bool.false_eq_true, if_false] at hm
+      exact AllQ_seq (AllQ_supStep c e) (AllQ_reminderStep c e) _ ev hm
+    · simp [hs] at hm
+
+theorem bypassTrace_ok (c : Cfg) : ∀ (ops : List Op) (s : St), bypassTrace (traceOf c s ops) = true := by
+  intro ops
+  induction ops with
+  | nil => intro s; rfl
+  | cons op rest ih =>
+    intro s
+    simp only [traceOf, bypassTrace, bypass_op, Bool.true_and]
+    exact ih _
+
+theorem crun_force_true (c : Cfg) (mid : List COp) : ∀ (k : CkSt) (s : St), k.force = true →
+    (∀ op ∈ mid, ∀ ty e, op ≠ COp.send ty e) → (crun c k s mid).1.force = true := by
+  induction mid with
+  | nil => intro k s h _; exact h
+  | cons op rest ih =>
+    intro k s h hm
+    have hrest : ∀ op ∈ rest, ∀ ty e, op ≠ COp.send ty e := fun o ho => hm o (List.mem_cons_of_mem _ ho)
+    cases op with
+    | setForce => simp only [crun, cApply]; exact ih _ _ rfl hrest
+    | attach b => simp only [crun, cApply]; exact ih _ _ h hrest
+    | send ty e => exact absurd rfl (hm _ (List.mem_cons_self ..) ty e)
+    | tick e =>
+      simp only [crun, cApply]
+      cases ha : k.attached
+      · simp only [Bool.false_eq_true, if_false]; exact ih _ _ h hrest
+      · simp only [if_true]; exact ih _ _ h hrest
+
 end Icinga.C03
